@@ -262,6 +262,10 @@ func init() {
 				x, y = g.valBits(r, r.Intn(600)), g.valBits(r, r.Intn(600))
 				ax, ay = g.capFor(r, x), g.capFor(r, y)
 			}
+			if r.Intn(3) == 0 { // boundary family: quotient 2^j, 2^j +- 1, tight announcements
+				x, y = g.divBoundary(r, false, 600)
+				ax, ay = tightCap(r, x), tightCap(r, y)
+			}
 			return &tcase{args: []*big.Int{x, zi(ax), y, zi(ay)}, mode: r.Intn(6)}
 		},
 		impl: func(c *tcase) (string, string) {
